@@ -1286,12 +1286,16 @@ where
                                 // Clean up the server and re-use it.
                                 self.stats.disconnect();
                                 server.checkin_cleanup().await?;
+                                // The server goes back to the pool when we return: our key
+                                // must not name it a moment longer.
+                                self.release();
 
                                 return Err(err);
                             }
                             Err(_) => {
                                 self.stats.disconnect();
                                 server.checkin_cleanup().await?;
+                                self.release();
                                 error_response_terminal(
                                     &mut self.write,
                                     "idle transaction timeout",
